@@ -217,6 +217,24 @@ def NMem.stRun (n : NMem) (ops : List StOp) : NMem := ops.foldl NMem.stStep n
 
 def View.ofNMem (n : NMem) (g : Nat) : View := ⟨n.graph g, fun x => n.contains x g⟩
 
+/-! Round h: the NEW graph built by `+ - * ^` is itself a `Memory` over nested dictionaries
+    (`retval = Graph()`; `retval.add(x)` for each `x`) -/
+
+/-- a fresh `Graph()` (own `Memory`, identifier `r`) filled by `retval.add(x)` for each `x` in turn -/
+def NMem.ofList (r : Nat) (ts : List Triple) : NMem := ts.foldl (fun n t => n.add t r) NMem.init
+
+def nUnion (xs ys : List Triple) (r : Nat) : NMem := NMem.ofList r (xs ++ ys)
+def nInter (inA : Triple → Bool) (ys : List Triple) (r : Nat) : NMem := NMem.ofList r (ys.filter inA)
+def nDiff (xs : List Triple) (inB : Triple → Bool) (r : Nat) : NMem := NMem.ofList r (xs.filter (fun x => !inB x))
+/-- `a ^ b` : `(self - other) + (other - self)` — the two differences are graphs of their own, iterated by `+` -/
+def nXor (xs : List Triple) (inA : Triple → Bool) (ys : List Triple) (inB : Triple → Bool) (r : Nat) : NMem :=
+  nUnion ((nDiff xs inB r).graph r) ((nDiff ys inA r).graph r) r
+
+def View.nunion (a b : View) (r : Nat) : NMem := nUnion a.xs b.xs r
+def View.ndiff (a b : View) (r : Nat) : NMem := nDiff a.xs b.has r
+def View.ninter (a b : View) (r : Nat) : NMem := nInter a.has b.xs r
+def View.nxor (a b : View) (r : Nat) : NMem := nXor a.xs a.has b.xs b.has r
+
 /-- which position of the pattern holds the list of choices in `triples_choices` -/
 inductive Slot
   | s | p | o
@@ -241,6 +259,37 @@ def Slot.get (sl : Slot) (t : Triple) : Nat :=
 def NMem.triplesChoices (n : NMem) (sl : Slot) (choices : List Nat) (a b : Option Nat) (req : Ctx) : List Triple :=
   if choices.isEmpty then n.triples (sl.pat a b none) req
   else choices.flatMap (fun x => n.triples (sl.pat a b (some x)) req)
+
+/-- one position of the argument of `triples_choices`: a term / `None`, or a list (tuple) of terms -/
+inductive Arg
+  | term (x : Option Nat)
+  | list (l : List Nat)
+  deriving Repr
+
+def Arg.nLists : Arg → Nat
+  | .term _ => 0
+  | .list _ => 1
+
+/-- `Store.triples_choices` with its whole dispatch (round h): the object position is examined first, then the
+    subject, then the predicate; a second list raises `ValueError` (`none`) before anything is read; with NO list in
+    any position none of the three `isinstance` branches is taken and the generator yields nothing -/
+def NMem.triplesChoicesG (n : NMem) (s p o : Arg) (req : Ctx) : Option (List Triple) :=
+  match o with
+  | .list os =>
+    match s, p with
+    | .list _, _ => none          -- "object_ / subject are both lists"
+    | .term _, .list _ => none    -- "object_ / predicate are both lists"
+    | .term s, .term p => some (n.triplesChoices .o os s p req)
+  | .term o =>
+    match s with
+    | .list ss =>
+      match p with
+      | .list _ => none           -- "subject / predicate are both lists"
+      | .term p => some (n.triplesChoices .s ss p o req)
+    | .term s =>
+      match p with
+      | .list ps => some (n.triplesChoices .p ps s o req)
+      | .term _ => some []
 
 /-! ### an open `Memory.triples()` generator over the nested dictionaries (the real copy discipline)
 
